@@ -94,6 +94,7 @@ class ModuleInfo:
     functions: Dict[str, FuncInfo] = field(default_factory=dict)
     classes: Dict[str, ClassInfo] = field(default_factory=dict)
     globals: Dict[str, ast.stmt] = field(default_factory=dict)  # module-level bindings
+    global_assign_count: Dict[str, int] = field(default_factory=dict)
 
 
 class Program:
@@ -187,8 +188,8 @@ class Program:
                 if isinstance(st, ast.Assign):
                     for t in st.targets:
                         if isinstance(t, ast.Name):
-                            mi.globals.setdefault(t.id, st)
                             mi.globals[t.id] = st
+                            mi.global_assign_count[t.id] = mi.global_assign_count.get(t.id, 0) + 1
                 elif isinstance(st, ast.AnnAssign) and isinstance(st.target, ast.Name):
                     mi.globals[st.target.id] = st
                 elif isinstance(st, ast.If):
